@@ -49,13 +49,32 @@ func (c *Ctx) handshakeHelpers() map[string]*ssa.Function {
 		"RAKPMessage2":   c.Named("pkg/ipmi", "RAKPMessage2"),
 		"RAKPMessage4":   c.Named("pkg/ipmi", "RAKPMessage4"),
 	}
+	cands := map[string][]*ssa.Function{}
 	for _, fn := range c.LibFuncs() {
 		if fn.Pkg == nil || fn.Pkg.Pkg.Path() != modPath || fn.Signature.Results().Len() != 2 || fn.Parent() != nil {
 			continue
 		}
 		for k, n := range want {
 			if isPtrTo(fn.Signature.Results().At(0).Type(), n) && len(fn.AnonFuncs) == 0 {
-				// exclude the constructor-like callers: must take the request as last parameter (a pointer to an ipmi layer)
+				cands[k] = append(cands[k], fn)
+			}
+		}
+	}
+	// several functions may hand the response on (a wrapper that also checks what the
+	// response says): the helper is the innermost one — it calls none of the others
+	for k, fs := range cands {
+		for _, fn := range fs {
+			callsOther := false
+			rawInstrs(fn, false, func(in ssa.Instruction) {
+				if cc := asCall(in); cc != nil {
+					for _, g := range fs {
+						if g != fn && cc.StaticCallee() == g {
+							callsOther = true
+						}
+					}
+				}
+			})
+			if !callsOther {
 				out[k] = fn
 			}
 		}
